@@ -39,12 +39,18 @@ ListOf(a) == TSeqOf(Flat(1, a), NoSz)
 \* (an extension alternative is read inside the scope of the enclosing extensible SEQUENCE)
 Both(a) == TSeq(<<Comp(ChoiceV(a), "man", <<>>), Comp(I07, "man", <<>>)>> \o [j \in 1..a |-> AddComp(j)], 2, TRUE)
 
+\* the versioned SEQUENCE inside a KNOWN extension addition with more data behind it in the same open type field:
+\* as elements of a list that is the addition, and as first component of a SEQUENCE that is the addition
+NestedAddList(a) == TSeq(<<Comp(I07, "man", <<>>), Comp(TSeqOf(Flat(1, a), NoSz), "man", <<>>)>>, 1, TRUE)
+NestedAddSeq(a) == TSeq(<<Comp(I07, "man", <<>>),
+                          Comp(TSeq(<<Comp(Flat(1, a), "man", <<>>), Comp(I07, "man", <<>>)>>, 2, FALSE), "man", <<>>)>>, 1, TRUE)
+
 \* family f, version a (0..AMax)
-Fams == <<"flat1", "flat2", "choice", "enum", "nadd", "nalt", "nroot", "list", "both">>
+Fams == <<"flat1", "flat2", "choice", "enum", "nadd", "nalt", "nroot", "list", "both", "naddlist", "naddseq">>
 Ver(f, a) ==
   CASE f = "flat1" -> Flat(1, a) [] f = "flat2" -> Flat(2, a) [] f = "choice" -> ChoiceV(a) [] f = "enum" -> EnumV(a)
     [] f = "nadd" -> NestedAdd(a) [] f = "nalt" -> NestedAlt(a) [] f = "nroot" -> NestedRoot(a) [] f = "list" -> ListOf(a)
-    [] f = "both" -> Both(a)
+    [] f = "both" -> Both(a) [] f = "naddlist" -> NestedAddList(a) [] f = "naddseq" -> NestedAddSeq(a)
 
 \* zoo: index 1 is the sentinel type, then (family, version) in order
 NV == AMax + 1
@@ -86,6 +92,9 @@ ValSeq(f, a) ==
     [] f = "nalt" -> LET xs == SetToSeq(InnerVals(a)) IN [j \in 1..Len(xs) |-> << <<[i |-> 1, v |-> xs[j]]>>, <<7>> >>]
     [] f = "nroot" -> LET xs == SetToSeq(InnerVals(a)) IN [j \in 1..Len(xs) |-> << <<xs[j]>>, <<7>> >>]
     [] f = "list" -> LET xs == SetToSeq(InnerVals(a)) IN [j \in 1..Len(xs) |-> <<xs[j], xs[((j * 7) % Len(xs)) + 1]>>]
+    [] f = "naddlist" -> LET xs == SetToSeq(InnerVals(a))
+                         IN [j \in 1..Len(xs) |-> << <<3>>, << <<xs[j], xs[((j * 7) % Len(xs)) + 1], xs[((j * 3) % Len(xs)) + 1]>> >> >>]
+    [] f = "naddseq" -> LET xs == SetToSeq(InnerVals(a)) IN [j \in 1..Len(xs) |-> << <<3>>, << << <<xs[j]>>, <<6>> >> >> >>]
 
 Inconsistent(t, v) ==
   /\ t.k = "seq" /\ t.ext /\ Len(t.comps) > t.nroot + 1
